@@ -27,6 +27,7 @@ Record ostep := {
   os_op : op;
   os_class : nat;          (* observed: 0 accepted, 1 rejected *)
   os_code : N;             (* Recv: result code of the acknowledgement the destination wrote *)
+  os_onward : option packet; (* Recv: the packet the callback sent on (agent multi-hop), as emitted by the chain *)
   os_obs : list cobs       (* all chains, after the step *)
 }.
 
@@ -276,7 +277,7 @@ Definition same_obs (a b : list cobs) : bool := Nat.eqb (obs_diff a b) 0.
 (** ** Ghost table maintained by the monitor *)
 Definition mon_packet (cfg : config) (c : chain) (u : nat) (tok : token) (amt : N) (dst : chain) (rcv : option holder)
   (cd : calldata) (cb : callback) (sq : N) : packet :=
-  {| p_src := c; p_dst := dst; p_seq := sq; p_sender := u; p_recv := rcv; p_token := tok;
+  {| p_src := c; p_dst := dst; p_seq := sq; p_sender := User u; p_recv := rcv; p_token := tok;
      p_ori := if amt =? 0 then None else match bound cfg c tok dst with Some (ori, _) => Some ori | None => None end;
      p_amount := amt; p_cd := cd; p_cb := cb;
      p_status := Sent; p_code := 0; p_delivered := 0; p_refunded := 0; p_feepaid := 0 |}.
@@ -340,9 +341,9 @@ Definition mon_step (U : universe) (cfg : config) (ps : list packet) (pre : list
   if Nat.eqb (os_class o) 1 then (ps, if same_obs pre post then [] else [11%nat])
   else
   match os_op o with
-  | Transfer c u tok amt dst rcv cd cb ftok fee =>
+  | Transfer c u tok amt dst rcv cd broken ftok fee =>
       let sq := next_seq (decode U pre c) dst in
-      let p := mon_packet cfg c u tok amt dst rcv cd cb sq in
+      let p := mon_packet cfg c u tok amt dst rcv cd (if broken then CbBroken else CbNone) sq in
       (ps ++ [p], if is_none (lookup c dst sq ps) && (next_seq (decode U post c) dst =? sq + 1) then [] else [22%nat])
   | Recv src dst sq =>
       match lookup src dst sq ps with
@@ -350,14 +351,21 @@ Definition mon_step (U : universe) (cfg : config) (ps : list packet) (pre : list
       | Some p =>
           if negb (is_sent p) then (ps, [12%nat])
           else
-            let ps' := update src dst sq (on_recv (os_code o) 0) ps in
-            if negb (os_code o =? 0) then (ps', if same_obs pre post then [] else [13%nat])
-            else (ps', match delivery_due cfg p, p_recv p with
-                       | Some (t, a), Some r =>
-                           if is_user r && negb (bal_of U post dst t r =? bal_of U pre dst t r + a) then [20%nat] else []
-                       | Some _, None => [20%nat]
-                       | None, _ => []
-                       end)
+            let ps1 := update src dst sq (on_recv (os_code o) 0) ps in
+            if negb (os_code o =? 0) then (ps1, (if same_obs pre post then [] else [13%nat]) ++ (if is_none (os_onward o) then [] else [24%nat]))
+            else
+            let ps' := ps1 ++ opt_list (os_onward o) in
+            let fresh := match os_onward o with
+                         | Some q => is_none (lookup (p_src q) (p_dst q) (p_seq q) ps1) && Nat.eqb (p_src q) dst
+                                     && (p_seq q =? next_seq (decode U pre dst) (p_dst q))
+                         | None => true end in
+            (ps', (if fresh then [] else [22%nat]) ++
+                  match delivery_due cfg p, p_recv p with
+                  | Some (t, a), Some r =>
+                      if is_user r && negb (bal_of U post dst t r =? bal_of U pre dst t r + a) then [20%nat] else []
+                  | Some _, None => [20%nat]
+                  | None, _ => []
+                  end)
       end
   | Ack src dst sq =>
       match lookup src dst sq ps with
@@ -366,7 +374,8 @@ Definition mon_step (U : universe) (cfg : config) (ps : list packet) (pre : list
           if negb (is_received p) then (ps, [12%nat])
           else
             let ps' := update src dst sq (on_ack 0) ps in
-            let sender_same := forallb (fun t => bal_of U post src t (User (p_sender p)) =? bal_of U pre src t (User (p_sender p)))
+            let sender_same := forallb (fun t => (bal_of U post src t (p_sender p) =? bal_of U pre src t (p_sender p))
+                                                 && (bal_of U post src t (refund_target p) =? bal_of U pre src t (refund_target p)))
                                        (tokens U src) in
             let others_same := forallb (fun c => Nat.eqb c src || (Nat.eqb (cobs_diff (nth c pre dummy_obs) (nth c post dummy_obs)) 0))
                                        (chain_ids U) in
@@ -378,8 +387,8 @@ Definition mon_step (U : universe) (cfg : config) (ps : list packet) (pre : list
                     then [] else [14%nat])
             else
               (ps', if others_same
-                       && forallb (fun t => bal_of U post src t (User (p_sender p)) =?
-                                            bal_of U pre src t (User (p_sender p))
+                       && forallb (fun t => bal_of U post src t (refund_target p) =?
+                                            bal_of U pre src t (refund_target p)
                                             + (if Nat.eqb t (p_token p) && negb (p_amount p =? 0) then refund_due cfg p else 0))
                                   (tokens U src)
                     then [] else [15%nat])
